@@ -427,3 +427,39 @@ def hardwired_names(chk, F, rule="hardwired-names-exist"):
         chk.anchor_lost(rule, "rink_core::loader::load::load_defs", "expected >=15 decomposition unit literals, found %d" % len(lits))
     chk.decide(not bad, rule, "rink_core::loader::load::load_defs", "decomposition-units", fn.where(),
                "the %d hard-wired decomposition units all exist in definitions.units" % len(lits), "hard-wired decomposition units missing from the data: %s" % bad)
+
+
+def compat_symbols(chk, rule="compat-symbols"):
+    """`every unit's stored value equals what its own definition text evaluates to` - and for a symbol, what the symbol *is*.  The
+    data file defines the one-character unit symbols of Unicode's CJK compatibility block by spelling out their Latin letters
+    (`㎭ rad`).  For a few of them the letters mean something else in this database: `rad` is 0.01 gray, `mb` is no unit and is
+    read as milli-bit.  tables/compat_symbols.json lists those symbols with an expression of this database that denotes the
+    unit the Unicode name describes; value and dimensionality must agree."""
+    import json as _json
+    from reader import Toks, p_expr
+    tbl = _json.load(open(os.path.join(facts.VERIF, "tables", "compat_symbols.json")))["symbols"]
+    f = folder()
+    names = {x["name"] for x in defs()}
+    n = 0
+    bad = []
+    for sym, e in sorted(tbl.items()):
+        if sym not in names:
+            continue
+        n += 1
+        try:
+            got = f.lookup(sym)
+            want = f.ev(p_expr(Toks(e["is"] + "\n")))
+        except Exception as ex:     # noqa: BLE001
+            bad.append("%s (%s): cannot be evaluated: %s" % (sym, e["name"], ex))
+            continue
+        if got[0] != want[0] or {k: v for k, v in got[1].items() if v} != {k: v for k, v in want[1].items() if v}:
+            bad.append("%s (%s) is defined as %s, the symbol denotes %s [%s]" % (sym, e["name"], _show(got), e["is"], e["why"]))
+    chk.decide(not bad, rule, "core/definitions.units", "symbols-denote-their-unicode-names", "core/definitions.units",
+               "%d compatibility symbols with ambiguous letters denote the unit their Unicode name describes" % n,
+               "; ".join(bad[:4]))
+    if n < 3:
+        chk.anchor_lost(rule, "core/definitions.units", "only %d of the listed compatibility symbols are defined" % n)
+
+
+def _show(v):
+    return "%s %s" % (v[0], " ".join("%s^%d" % (k, p) for k, p in sorted(v[1].items()) if p))
